@@ -1010,6 +1010,10 @@ func validateDef(ctx context.Context, insecureKeys bool, keymanagerAddrs []strin
 		return errors.New("insufficient number of nodes", z.Int("num_nodes", len(def.Operators)), z.Int("min", minNodes))
 	}
 
+	if def.Threshold < minThreshold || def.Threshold > len(def.Operators) {
+		return errors.New("invalid threshold in cluster definition", z.Int("threshold", def.Threshold), z.Int("operators", len(def.Operators)), z.Int("min", minThreshold))
+	}
+
 	if len(keymanagerAddrs) > 0 && (len(keymanagerAddrs) != len(def.Operators)) {
 		return errors.New("number of keymanager addresses does not match number of operators", z.Int("expected", len(def.Operators)), z.Int("got", len(keymanagerAddrs)))
 	}
